@@ -224,9 +224,10 @@ func plExplore(t *testing.T, res *ev.Result, prop string, bound int, scs []*plSc
 				e.Bound = scs[i].HeavyBound
 			}
 		}
+		e.StrictCost = scs[i].Strict
 		e.Explore(sc)
 	}
-	e.Bound = bound
+	e.Bound, e.StrictCost = bound, false
 	plReport(res, e, prop)
 	res.Bounds["scenarios"] = len(scs)
 }
@@ -483,6 +484,21 @@ func plPlacementScenarios(thorough bool) []*plScenario {
 			sh.Script = data(i)
 		}
 		out = append(out, &plScenario{Name: fmt.Sprintf("place:prefix-names-%d", vi), SrcN: 2, TgtN: 2, Colls: []*plColl{c}, Drivers: []plDriver{{Kind: "start", Coll: 0}}, MsgPosPChannel: true})
+	}
+	two := 2
+	// two collections with the SAME name in two databases, multiplexed on one source and one downstream channel: ids,
+	// partitions and the database named in the events belong to the right one
+	{
+		c1 := mkColl(101, "a", []string{"src-dml_0"}, []string{"tgt-dml_0"})
+		c2 := mkColl(102, "a", []string{"src-dml_0"}, []string{"tgt-dml_0"})
+		c2.DB = "db1"
+		withPartition(c1, true)
+		c1.Shards[0].Script = []plPack{pkIns(1000), pkDel(1010)}
+		c2.Shards[0].Script = []plPack{pkDel(1001), pkDropColl(1040)}
+		// (the partition of default.a is announced after db1.a has been dropped)
+		out = append(out, &plScenario{Name: "place:same-name-two-dbs", SrcN: 1, TgtN: 1, Colls: []*plColl{c1, c2},
+			Drivers: []plDriver{{Kind: "start", Coll: 0}, {Kind: "start", Coll: 1},
+				{Kind: "addpart", Coll: 0, Part: "p1", PartState: pb.PartitionState_PartitionCreated, AfterDrop: true}}, Strict: true, Bound: &two})
 	}
 	// two collections whose shards are placed crosswise: the second one is forwarded between handlers
 	{
